@@ -11,6 +11,7 @@ kinds (lost tail block, zero-filled tail, flipped bit, dropped / duplicated deli
 compositions of two) are enumerated over all delimiter positions up to a cap and sampled beyond it.
 """
 import json
+import logging
 import os
 import plistlib
 import shutil
@@ -153,6 +154,17 @@ def apply_fault(data: bytes, f) -> bytes:
         if not data:
             return data
         return data[:at] + bytes([data[at] ^ (1 << f["bit"])]) + data[at + 1:]
+    if k == "garbage_block":     # a bad block: 16 bytes of 0xFF in place of the stored content
+        at = (f["at"] // 16) * 16
+        return data[:at] + b"\xff" * min(16, len(data) - at) + data[at + 16:]
+    if k == "swap":              # two adjacent bytes stored in the wrong order
+        at = f["at"]
+        if at + 1 >= len(data):
+            return data
+        return data[:at] + data[at + 1:at + 2] + data[at:at + 1] + data[at + 2:]
+    if k == "dup_block":         # a block written twice (a retried write that was not idempotent)
+        at, n = f["at"], f["n"]
+        return data[:at + n] + data[at:at + n] + data[at + n:]
     if k == "drop":
         return data[:f["at"]] + data[f["at"] + 1:]
     if k == "dup":
@@ -196,7 +208,7 @@ class C20:
     }
     RULE = ("one run = one generated valid document of one format (JSON, JSON5, YAML, XML, HTML, plist) with: a torn "
             "write at EVERY byte offset; lost tail at 16/64/512-byte blocks and at the last newline; zero-filled tail; "
-            "flipped bits; every delimiter dropped / duplicated (capped at 48 positions, sampled beyond); inserted "
+            "flipped bits; 16-byte garbage blocks; swapped adjacent bytes; duplicated blocks; every delimiter dropped / duplicated (capped at 48 positions, sampled beyond); inserted "
             "unbalanced bracket or tag character; dropped / duplicated closing tag; compositions of two faults. Each "
             "fault carries its own configuration: file position (first/second), type spelling (extension / "
             "--from-<type> / --from-mime), status flags (default / --no-status / --quiet); the clock profile is per "
@@ -242,6 +254,12 @@ class C20:
             faults.append(dict(kind="zero_fill", at=fs.randrange(max(1, len(data))), **cfg()))
         for _ in range(12):
             faults.append(dict(kind="bitflip", at=fs.randrange(max(1, len(data))), bit=fs.randrange(8), **cfg()))
+        for _ in range(4):
+            faults.append(dict(kind="garbage_block", at=fs.randrange(max(1, len(data))), **cfg()))
+        for _ in range(8):
+            faults.append(dict(kind="swap", at=fs.randrange(max(1, len(data))), **cfg()))
+        for _ in range(6):
+            faults.append(dict(kind="dup_block", at=fs.randrange(max(1, len(data))), n=fs.choice([1, 4, 16, 64]), **cfg()))
         dpos = [i for i, ch in enumerate(data) if ch in DELIMS[fmt]]
         if len(dpos) > 48:
             dpos = sorted(fs.sample(dpos, 48))
@@ -261,7 +279,7 @@ class C20:
             g1 = {k: v for k, v in a.items() if k not in ("pos", "spell", "status")}
             g2 = {k: v for k, v in b.items() if k not in ("pos", "spell", "status")}
             faults.append(dict(kind="seq", faults=[g2, g1] if g2["kind"] == "torn" else [g1, g2], **cfg()))
-        fresh = sorted(env.sample(range(len(faults)), 2)) if env.random() < (0.08 if tier == "quick" else 0.03) else []
+        fresh = sorted(env.sample(range(len(faults)), 3)) if env.random() < (0.25 if tier == "quick" else 0.1) else []
         return {"fmt": fmt, "text": text, "other": other, "faults": faults,
                 "clock": env.choice(["frozen", "1ms", "0.2s", "3s", "3s", "1h"]), "fresh": fresh}
 
@@ -301,6 +319,13 @@ class C20:
             tqdm.tqdm._instances.clear()
         except Exception:
             pass
+        # a fresh process has no logging configuration yet: main()'s logging.basicConfig() must take effect on
+        # every call (it is a no-op once the root logger has a handler), else --quiet / --log-level of a later
+        # invocation would be judged under the first invocation's configuration
+        root = logging.getLogger()
+        for h in list(root.handlers):
+            root.removeHandler(h)
+        root.setLevel(logging.WARNING)
         SEAMS.out.drop()
         SEAMS.err.drop()
 
@@ -377,13 +402,15 @@ class C20:
                 log.add(fi, kind, f["pos"], f["spell"], f["status"], rc, type(exc).__name__ if exc else "-",
                         problem[0] if problem else "ok")
                 if fi in case.get("fresh", ()):
-                    self._validate_fresh(fmt, f, bad, case, rc, exc, out, problem)
+                    fresh_problem = self._validate_fresh(fmt, f, bad, case, rc, exc, out, problem)
                     bump("probe.fresh_process_validated")
+                    if problem is None and fresh_problem is not None:
+                        problem = fresh_problem    # the real command is the authority; in-process is its fast stand-in
                 if problem and viol is None:
                     k, site_tail, detail = problem
                     viol = {"kind": k, "site": f"{fmt}/{site_tail}",
                             "detail": f"{detail}\nargv={argv}\nfault={f}\ncorrupted bytes={bad[:200]!r}"}
-                    viol_case = dict(case, faults=[f], fresh=[])
+                    viol_case = dict(case, faults=[f], fresh=[0] if "fresh-process" in site_tail else [])
                     break
         finally:
             shutil.rmtree(d, ignore_errors=True)
@@ -439,6 +466,15 @@ class C20:
                 if p.returncode != want or p.stdout.decode("utf-8", "replace").strip() != out.strip():
                     raise RuntimeError(f"in-process rc={rc} stdout={out!r} but fresh process rc={p.returncode} "
                                        f"stdout={p.stdout!r} for {argv}")
+            # the property's oracle applied to the real process
+            if traceback_seen:
+                return None if problem is not None else (
+                    "uncaught-exception", "fresh-process", p.stderr.decode("utf-8", "replace")[-800:])
+            fresh = self._judge(p.returncode, None, p.stdout.decode("utf-8", "replace"),
+                                p.stderr.decode("utf-8", "replace"), name, bp, ok)
+            if fresh is not None:
+                return (fresh[0], fresh[1] + "(fresh-process)", fresh[2])
+            return None
         finally:
             shutil.rmtree(d, ignore_errors=True)
 
